@@ -166,9 +166,10 @@ def jump_patterns(tab):
     len(co_code), onto the next instruction, each also with a forced (zero) EXTENDED_ARG prefix."""
     fwd = "JUMP_FORWARD"
     back = "JUMP_ABSOLUTE" if "JUMP_ABSOLUTE" in tab.opmap else "JUMP_BACKWARD"
-    if fwd not in tab.opmap or back not in tab.opmap or "NOP" not in tab.opmap:
+    pad = "NOP" if "NOP" in tab.opmap else "POP_TOP"
+    if fwd not in tab.opmap or back not in tab.opmap or pad not in tab.opmap:
         return []
-    nop = {"op": "NOP", "arg": None, "pre": 0, "to": None}
+    nop = {"op": pad, "arg": None, "pre": 0, "to": None}
     out = []
     for pre in (0, 1):
         out.append([dict(nop), {"op": back, "arg": 0, "pre": pre, "to": 0}, {"op": fwd, "arg": 0, "pre": pre, "to": -1},
@@ -249,12 +250,13 @@ def asm_cases(version, tab, max_items=14, padding=True):
             it["arg"] = draw(st.one_of(st.sampled_from([lo, hi]), st.integers(lo, hi)))
         return it
     base = st.lists(item(), min_size=1, max_size=max_items)
-    if "NOP" not in tab.opmap or not padding:
+    pad = "NOP" if "NOP" in tab.opmap else ("POP_TOP" if "POP_TOP" in tab.opmap else None)
+    if pad is None or not padding:
         return base
     # one case in ten carries a long run of NOPs, so that jumps across it need operands >= 2^16 (real EXTENDED_ARG
     # high bits in jump arithmetic); the run is long enough for each encoding of the operand
     units = 66000 if v < (3, 10) else 66000
-    run = {"op": "NOP", "arg": None, "pre": 0, "to": None, "rep": units if (v < (3, 6) or v >= (3, 10)) else units // 2}
+    run = {"op": pad, "arg": None, "pre": 0, "to": None, "rep": units if (v < (3, 6) or v >= (3, 10)) else units // 2}
 
     @st.composite
     def padded(draw):
